@@ -106,6 +106,9 @@ type EntrySpec struct {
 	Del bool   `json:"del,omitempty"`
 	Key []byte `json:"key"`
 	Val []byte `json:"val,omitempty"`
+	// Seq is the SequenceNumber field the CLIENT filled in (entries read back
+	// from a log, copied from another node): a client batch stays a client batch
+	Seq uint64 `json:"seq,omitempty"`
 }
 
 // Args holds drawn argument values by type, consumed in parameter order.
@@ -183,9 +186,9 @@ func buildArgs(m reflect.Type, skipRecv bool, a *Args) []reflect.Value {
 			es := make([]*wal.Entry, 0, len(a.Entries))
 			for _, e := range a.Entries {
 				if e.Del {
-					es = append(es, &wal.Entry{Type: wal.OpTypeDelete, Key: append([]byte{}, e.Key...)})
+					es = append(es, &wal.Entry{Type: wal.OpTypeDelete, Key: append([]byte{}, e.Key...), SequenceNumber: e.Seq})
 				} else {
-					es = append(es, &wal.Entry{Type: wal.OpTypePut, Key: append([]byte{}, e.Key...), Value: append([]byte{}, e.Val...)})
+					es = append(es, &wal.Entry{Type: wal.OpTypePut, Key: append([]byte{}, e.Key...), Value: append([]byte{}, e.Val...), SequenceNumber: e.Seq})
 				}
 			}
 			in = append(in, reflect.ValueOf(es))
